@@ -12,8 +12,11 @@ import (
 	"encoding/json"
 	"math"
 	"math/big"
+	"reflect"
+	"sort"
 	"strconv"
 	"strings"
+	"time"
 )
 
 type c05Stringer string
@@ -211,10 +214,280 @@ func c05NativeNum(text string, h uint64) any {
 			switch {
 			case h%4 == 0 && len(digits) <= 15:
 				return f
-			case h%4 == 1 && len(digits) <= 6 && strconv.FormatFloat(float64(float32(f)), 'f', -1, 32) == text:
+			case h%4 == 1 && len(digits) <= 6 && float64(float32(f)) == f && c05ExactFloat(text, f):
+				// (only values a float32 holds exactly: float32(0.1) denotes another number than the text 0.1)
 				return float32(f)
 			}
 		}
 	}
 	return json.Number(text)
+}
+
+// c05ExactFloat: the decimal text denotes exactly the float64 f.
+func c05ExactFloat(text string, f float64) bool {
+	r, ok := c05Exact(text)
+	return ok && !math.IsInf(f, 0) && r.Cmp(new(big.Rat).SetFloat64(f)) == 0
+}
+
+// ---- shape-directed native documents (case field NM = 1) -------------------------
+// What a Go caller who knows the destination struct writes by hand: a value of the field's
+// own kind where the document's number fits it (int8(5), uint16(80), float32(1.5), the defined
+// type itself, time.Duration, []byte for a TextUnmarshaler), typed slices and maps
+// ([]int8{...}, []map[string]any{...}, map[string]int{...}); a value that does not fit the
+// field's kind necessarily arrives in a wider or different type (int64(300) for an int8
+// field), and about one number in eight has a stray type although it would fit.
+// The document's value stays what the node says; the oracle is unchanged.
+
+type c05NatCtx struct {
+	classes map[string]bool
+}
+
+func (x *c05NatCtx) class(c string) {
+	if x != nil && x.classes != nil {
+		x.classes[c] = true
+	}
+}
+
+// c05FindField: the field of fs (embedded structs flattened) that is looked up under key.
+func c05FindField(fs []c05Fld, key string) *c05Fld {
+	for i := range fs {
+		f := &fs[i]
+		if f.Tag == "-other" {
+			continue
+		}
+		if f.Anon {
+			if g := c05FindField(f.T.F, key); g != nil {
+				return g
+			}
+			continue
+		}
+		if f.key(i) == key {
+			return f
+		}
+	}
+	return nil
+}
+
+func c05NativeDoc(fs []c05Fld, v *c05JV, h uint64, x *c05NatCtx) map[string]any {
+	m := make(map[string]any, len(v.M))
+	for i := range v.M {
+		var t *c05Typ
+		if f := c05FindField(fs, v.M[i].K); f != nil && !(f.Str && c05IsScalar(f.T.K)) {
+			t = &f.T
+		}
+		m[v.M[i].K] = c05NativeT(&v.M[i].V, t, c05Mix(h, i), false, x)
+	}
+	return m
+}
+
+// c05ScalarRT: the Go type of a scalar kind (defined variant on request).
+func c05ScalarRT(t *c05Typ, defined bool) reflect.Type {
+	rt := c05Scalars[t.K]
+	if dt, has := c05Defined[t.K]; defined && t.D && has {
+		rt = dt
+	}
+	return rt
+}
+
+// c05NativeExactNum: the number as a value of exactly the field's kind, if it fits.
+func c05NativeExactNum(text string, t *c05Typ, h uint64) (any, bool) {
+	rv := reflect.New(c05ScalarRT(t, h%2 == 0)).Elem()
+	switch {
+	case c05IsFloat(t.K):
+		if !c05ReJSONNum.MatchString(text) {
+			return nil, false
+		}
+		f, err := strconv.ParseFloat(text, 64)
+		if err != nil {
+			return nil, false
+		}
+		if t.K == "float32" {
+			// the float32 the caller gets from writing the literal; only when the literal is the
+			// shortest form of that float32 (so the value has one reading) or exact
+			f32 := float32(f)
+			if math.IsInf(float64(f32), 0) || !(strconv.FormatFloat(float64(f32), 'f', -1, 32) == text || c05ExactFloat(text, float64(f32))) {
+				return nil, false
+			}
+			rv.SetFloat(float64(f32))
+			return rv.Interface(), true
+		}
+		if !(strconv.FormatFloat(f, 'f', -1, 64) == text || c05ExactFloat(text, f)) {
+			return nil, false
+		}
+		rv.SetFloat(f)
+		return rv.Interface(), true
+	case c05ReCanonInt.MatchString(text) && text != "-0":
+		n, _ := new(big.Int).SetString(text, 10)
+		lo, hi := c05IntRange(t.K)
+		if n.Cmp(lo) < 0 || n.Cmp(hi) > 0 {
+			return nil, false
+		}
+		if c05IsUint(t.K) {
+			rv.SetUint(n.Uint64())
+		} else {
+			rv.SetInt(n.Int64())
+		}
+		return rv.Interface(), true
+	}
+	return nil, false
+}
+
+// elem: the node is an element of a slice or map (there about one number in three has a stray
+// type, in fields one in sixteen: a stray type in a field makes the code reject the document).
+func c05NativeT(v *c05JV, t *c05Typ, h uint64, elem bool, x *c05NatCtx) any {
+	if t == nil {
+		return c05Native(v, h, false)
+	}
+	switch v.T {
+	case "num":
+		if c05IsNumeric(t.K) {
+			if stray := h%16 == 0 || elem && h%3 == 0; !stray {
+				if val, ok := c05NativeExactNum(v.S, t, h>>4); ok {
+					x.class("native:field-kind")
+					if t.D && h>>4%2 == 0 {
+						x.class("native:defined-type")
+					}
+					if t.P && h%16 == 3 && !elem {
+						// a pointer, as the field is one
+						p := reflect.New(reflect.TypeOf(val))
+						p.Elem().Set(reflect.ValueOf(val))
+						x.class("native:pointer")
+						return p.Interface()
+					}
+					return val
+				}
+				x.class("native:does-not-fit-field-kind")
+			} else if elem {
+				x.class("native:stray-type-element")
+			} else {
+				x.class("native:stray-type")
+			}
+		}
+		return c05NativeNum(v.S, c05Mix(h, 77))
+	case "str":
+		switch {
+		case t.K == "dur":
+			if d, err := time.ParseDuration(v.S); err == nil && h%2 == 0 {
+				x.class("native:duration")
+				return d
+			}
+		case t.K == "text":
+			if h%3 == 0 {
+				x.class("native:bytes")
+				return []byte(v.S)
+			}
+		case t.K == "string":
+			switch h % 6 {
+			case 0:
+				return c05Stringer(v.S)
+			case 1:
+				x.class("native:defined-type")
+				return c05DString(v.S)
+			}
+		case t.K == "slice" || t.K == "map":
+			// JSON text for a collection field, in a string type of the caller
+			switch h % 4 {
+			case 0:
+				x.class("native:defined-string-for-collection")
+				return c05DString(v.S)
+			case 1:
+				return c05Stringer(v.S)
+			}
+		}
+		return c05Native(v, h, false)
+	case "bool":
+		if t.K == "bool" && t.D && h%2 == 0 {
+			x.class("native:defined-type")
+			return c05DBool(v.B)
+		}
+		return v.B
+	case "arr":
+		var et *c05Typ
+		if t.K == "slice" {
+			et = t.E
+		}
+		elems := make([]any, len(v.L))
+		for i := range v.L {
+			elems[i] = c05NativeT(&v.L[i], et, c05Mix(h, i), true, x)
+		}
+		if h%10 < 3 {
+			if ts, ok := c05TypedSlice(elems); ok {
+				x.class("native:typed-slice")
+				return ts
+			}
+		}
+		return elems
+	case "obj":
+		m := make(map[string]any, len(v.M))
+		switch t.K {
+		case "struct":
+			m = c05NativeDoc(t.F, v, h, x)
+		case "map":
+			for i := range v.M {
+				m[v.M[i].K] = c05NativeT(&v.M[i].V, t.E, c05Mix(h, i), true, x)
+			}
+		default:
+			return c05Native(v, h, false)
+		}
+		switch h % 10 {
+		case 0: // what yaml.v2 hands out
+			out := make(map[any]any, len(m))
+			for k, e := range m {
+				out[k] = e
+			}
+			x.class("native:map-any-any")
+			return out
+		case 1, 2, 3:
+			if tm, ok := c05TypedMap(m); ok {
+				x.class("native:typed-map")
+				return tm
+			}
+		}
+		return m
+	}
+	return c05Native(v, h, false)
+}
+
+// c05TypedSlice: []T when every element is a non-nil value of one Go type T.
+func c05TypedSlice(elems []any) (any, bool) {
+	if len(elems) == 0 || elems[0] == nil {
+		return nil, false
+	}
+	et := reflect.TypeOf(elems[0])
+	for _, e := range elems {
+		if e == nil || reflect.TypeOf(e) != et {
+			return nil, false
+		}
+	}
+	out := reflect.MakeSlice(reflect.SliceOf(et), len(elems), len(elems))
+	for i, e := range elems {
+		out.Index(i).Set(reflect.ValueOf(e))
+	}
+	return out.Interface(), true
+}
+
+// c05TypedMap: map[string]T when every value is a non-nil value of one Go type T.
+func c05TypedMap(m map[string]any) (any, bool) {
+	if len(m) == 0 {
+		return nil, false
+	}
+	keys := make([]string, 0, len(m))
+	for k := range m {
+		keys = append(keys, k)
+	}
+	sort.Strings(keys)
+	if m[keys[0]] == nil {
+		return nil, false
+	}
+	et := reflect.TypeOf(m[keys[0]])
+	for _, k := range keys {
+		if m[k] == nil || reflect.TypeOf(m[k]) != et {
+			return nil, false
+		}
+	}
+	out := reflect.MakeMapWithSize(reflect.MapOf(reflect.TypeOf(""), et), len(m))
+	for _, k := range keys {
+		out.SetMapIndex(reflect.ValueOf(k), reflect.ValueOf(m[k]))
+	}
+	return out.Interface(), true
 }
